@@ -32,6 +32,7 @@ func genC20(c *Ctx) {
 	c20GenUnequal(c)
 	c20GenManyDigits(c)
 	c20Gen32(c)
+	c20GenTestPoly(c)
 	c20GenBlindRot(c)
 	c20GenHistory(c)
 	c20GenMalformed(c)
